@@ -30,6 +30,8 @@ type Scenario struct {
 	FreshAbsent, FreshOtherUID, FreshDeleting bool
 	// set missing from the cache
 	Uncached bool
+	// pods (by ordinal) that the cache still shows although they are gone from the API / that were re-created since
+	ApiGone, ApiReborn []int
 	Dom      []int   // index of the scenario in its domain (for replay)
 	Faults   []Fault // injected into the reconcile that follows Load
 	// Raw, if set, rewrites the built set object (used to produce shapes only the CRD schema admits)
@@ -63,6 +65,21 @@ func (w *World) Load(sc *Scenario) {
 		e.api.Put(RPVC, &v1.PersistentVolumeClaim{ObjectMeta: metav1.ObjectMeta{Name: n, Namespace: NS}})
 	}
 	e.CacheSyncAll(false)
+	for _, o := range sc.ApiGone {
+		e.api.Remove(RPods, fmt.Sprintf("%s-%d", set.Name, o))
+	}
+	for _, o := range sc.ApiReborn { // the same name, another incarnation (uid), not scheduled yet
+		n := fmt.Sprintf("%s-%d", set.Name, o)
+		if old := e.apiPod(n); old != nil {
+			p := old.DeepCopy()
+			e.api.Remove(RPods, n)
+			p.UID, p.ResourceVersion = "", ""
+			p.Spec.NodeName = ""
+			p.Status = v1.PodStatus{Phase: v1.PodPending}
+			p.DeletionTimestamp = nil
+			e.api.Put(RPods, p)
+		}
+	}
 	if sc.Uncached {
 		e.setIdx.Replace(nil, "")
 	}
